@@ -136,6 +136,8 @@ type runResult struct {
 	state  string
 	stack  int
 	dstack int
+	// after the budget error: what three further calls on the same interpreter did
+	later string
 }
 
 func run(prog string, maxOps int) runResult {
@@ -300,7 +302,19 @@ func runPieces(pieces []string, maxOps int) runResult {
 			break
 		}
 	}
-	return runResult{err: err, numOps: intp.NumOps, state: pscmp.Canon(opTable, intp), stack: len(intp.Stack), dstack: len(intp.DictStack)}
+	res := runResult{err: err, numOps: intp.NumOps, state: pscmp.Canon(opTable, intp), stack: len(intp.Stack), dstack: len(intp.DictStack)}
+	if err == postscript.ErrExecutionLimitExceeded {
+		// the budget stays used up: every further call fails, and the counter
+		// stays where it is ("never counting past N+1")
+		for _, p := range []string{"1", "1 2 add pop", "v"} {
+			e := intp.ExecuteString(p)
+			if e != postscript.ErrExecutionLimitExceeded || intp.NumOps != res.numOps {
+				res.later = fmt.Sprintf("a further call `%s` returned err=%v with NumOps=%d (the budget error left NumOps=%d, MaxOps=%d)", p, e, intp.NumOps, res.numOps, maxOps)
+				break
+			}
+		}
+	}
+	return res
 }
 
 func acrossCallsBody(progs []string) func(c *mc.Ctx, item int) mc.Verdict {
@@ -330,6 +344,11 @@ func acrossCallsBody(progs []string) func(c *mc.Ctx, item int) mc.Verdict {
 		one := run(prog, n)
 		two := runPieces([]string{prog[:cut], prog[cut:]}, n)
 		c.Steps(2)
+		if two.later != "" {
+			v := mc.Fail("C11:budget-across-calls:counting-continues-after-the-budget-error", fmt.Sprintf("program `%s%s` fed as `%s` + `%s` with budget %d: %s", preamble, prog, prog[:cut], prog[cut:], n, two.later))
+			v.Render = prog
+			return v
+		}
 		if one.numOps != two.numOps || errStr(one.err) != errStr(two.err) || (one.err == postscript.ErrExecutionLimitExceeded) != (two.err == postscript.ErrExecutionLimitExceeded) || one.state != two.state {
 			v := mc.Fail("C11:budget-across-calls:{"+kindOf(prog)+"}", fmt.Sprintf("program `%s%s` with budget %d (it needs %d operations): in one call NumOps=%d err=%s; fed as `%s` + `%s` in two calls NumOps=%d err=%s; states equal=%v",
 				preamble, prog, n, memo.probe.numOps, one.numOps, errStr(one.err), prog[:cut], prog[cut:], two.numOps, errStr(two.err), one.state == two.state))
@@ -786,7 +805,7 @@ func main() {
 				},
 				{
 					Name: "budget-across-execute-calls", Items: len(small2), Body: acrossCallsBody(small2), Budget: budget,
-					Rule: fmt.Sprintf("%d terminating programs (shapes with <= 2 statements) x every cut after a token (also inside an unfinished procedure body) x every budget N in 1..ops+2: the two pieces fed in consecutive Execute calls to one interpreter must give the same error identity, the same cumulative NumOps and the same state as the single call with the same budget; non-trivial = every comparison", len(small2)),
+					Rule: fmt.Sprintf("%d terminating programs (shapes with <= 2 statements) x every cut after a token (also inside an unfinished procedure body) x every budget N in 1..ops+2: the two pieces fed in consecutive Execute calls to one interpreter must give the same error identity, the same cumulative NumOps and the same state as the single call with the same budget; after a budget error three further calls on the same interpreter must fail with the same error and leave NumOps at N+1; non-trivial = every comparison", len(small2)),
 				},
 				{
 					Name: "budget-changed-between-calls", Items: len(small2), Body: budgetChangeBody(small2), Budget: budget,
